@@ -380,6 +380,7 @@ pub fn op_strategy(p: &Profile, cfg: &Config) -> BoxedStrategy<Op> {
             2 => (0..nk).prop_map(|k| Op::Get { k }),
             1 => (0..nk, cost_strategy(cfg.max_cost, internal), tag_strategy(cfg.max_cost, internal)).prop_map(|(k, cost, tag)| Op::InsertIfPresent { k, cost, tag }),
             2 => Just(Op::ProcInsert),
+            1 => Just(Op::Drain { clear_first: false }),
             1 => Just(Op::Tick),
             1 => (0usize..3).prop_map(|pre| Op::Clear { pre }),
         ];
@@ -391,15 +392,44 @@ pub fn op_strategy(p: &Profile, cfg: &Config) -> BoxedStrategy<Op> {
         } else {
             prop_oneof![
             6 => (proptest::sample::select(vec!["proc.new.after_policy_add", "proc.new.after_store_insert", "proc.new.victim", "proc.update", "proc.delete.after_policy_remove"]), Just(Op::ProcInsert)),
-            2 => (Just("remove.after_store_remove"), (0..nk).prop_map(|k| Op::Remove { k })),
-            2 => (Just("insert.after_store_update"), (0..nk, cost_strategy(cfg.max_cost, internal), ttl_strategy(p.ttl_pct), tag_strategy(cfg.max_cost, internal)).prop_map(|(k, cost, ttl, tag)| Op::Insert { k, cost, ttl, tag })),
+            3 => (proptest::sample::select(vec!["remove.after_store_remove", "remove.before_store_remove"]), (0..nk).prop_map(|k| Op::Remove { k })),
+            3 => (proptest::sample::select(vec!["insert.after_store_update", "insert.before_store_update"]), (0..nk, cost_strategy(cfg.max_cost, internal), ttl_strategy(p.ttl_pct), tag_strategy(cfg.max_cost, internal)).prop_map(|(k, cost, ttl, tag)| Op::Insert { k, cost, ttl, tag })),
             2 => (proptest::sample::select(vec!["cleanup.after_check", "cleanup.after_policy_remove"]), Just(Op::Tick)),
+            // the entry of the store's mutators, whoever calls them (client, processor, sweep)
+            4 => (
+                proptest::sample::select(vec!["store.insert.enter", "store.update.enter", "store.remove.enter"]),
+                prop_oneof![
+                    3 => Just(Op::ProcInsert),
+                    1 => Just(Op::Tick),
+                    2 => (0..nk).prop_map(|k| Op::Remove { k }),
+                    2 => (0..nk, cost_strategy(cfg.max_cost, internal), ttl_strategy(p.ttl_pct), tag_strategy(cfg.max_cost, internal)).prop_map(|(k, cost, ttl, tag)| Op::Insert { k, cost, ttl, tag }),
+                ]
+            ),
             2 => (proptest::sample::select(vec!["clear.after_signal", "proc.clear.after_drain", "proc.clear.after_policy_clear", "proc.clear.after_store_clear", "em.clear.before", "em.clear.after"]), (0usize..3).prop_map(|pre| Op::Clear { pre })),
         ].boxed()
         };
         arms.push((
             p.interpose,
-            (site, 0usize..2, actions).prop_map(|((at, then), nth, actions)| Op::Interpose { at: at.to_string(), nth, actions, then: Box::new(then) }).boxed(),
+            (site, 0usize..2, actions, any::<u8>())
+                .prop_map(|((at, then), nth, mut actions, same)| {
+                    // half of the keyed actions aim at the key of the interrupted operation
+                    let outer = match &then {
+                        Op::Insert { k, .. } | Op::Remove { k } => Some(*k),
+                        _ => None,
+                    };
+                    if let Some(ok) = outer {
+                        for (i, a) in actions.iter_mut().enumerate() {
+                            if same & (1 << i) != 0 {
+                                match a {
+                                    Op::Insert { k, .. } | Op::InsertIfPresent { k, .. } | Op::Remove { k } | Op::Get { k } => *k = ok,
+                                    _ => {}
+                                }
+                            }
+                        }
+                    }
+                    Op::Interpose { at: at.to_string(), nth, actions, then: Box::new(then) }
+                })
+                .boxed(),
         ));
     }
     let arms: Vec<(u32, BoxedStrategy<Op>)> = arms.into_iter().filter(|(w, _)| *w > 0).collect();
@@ -480,6 +510,61 @@ pub fn big_buffer_clear_scenario(p: &Profile) -> BoxedStrategy<Case> {
             cfg.flavour = if k % 3 == 0 { Flavour::Async } else { Flavour::Sync };
             let ops = vec![Op::Bulk { n }, Op::Clear { pre }, Op::Drain { clear_first: false }, Op::Get { k }, Op::Get { k: k + 1 }];
             Case { cfg, ops }
+        })
+        .boxed()
+}
+
+/// Template cases for "a client operation lands inside a cleanup sweep": random prefix; two to four
+/// TTL keys whose deadlines share a second are made resident; time moves past their bucket; the
+/// cleanup tick runs with client actions (remove / lookup / re-insert of one of those keys, or a
+/// processor step) interposed at one of the yield points inside the per-key loop of the sweep; all
+/// keys are looked up; random suffix.
+pub fn sweep_race_scenario(p: &Profile) -> BoxedStrategy<Case> {
+    let mut p2 = p.clone();
+    p2.modes = vec![Mode::Schedule];
+    p2.periodic = false;
+    p2.periodic_pct = 0;
+    let p3 = p2.clone();
+    config_strategy(&p2)
+        .prop_flat_map(move |cfg| {
+            let nk = cfg.keys.len() as u64;
+            let ops = op_strategy(&p3, &cfg);
+            let ttl = proptest::sample::select(vec![1_000_000i64, 500_000_000, NS - 1, NS, 1_500_000_000, 2 * NS]);
+            let site = proptest::sample::select(vec!["cleanup.after_check", "cleanup.after_policy_remove"]);
+            let ttl_any = prop_oneof![Just(0i64), proptest::sample::select(vec![1_000_000i64, NS, 3 * NS])];
+            let action = prop_oneof![
+                4 => (0..nk).prop_map(|k| Op::Remove { k }),
+                2 => (0..nk).prop_map(|k| Op::Get { k }),
+                2 => (0..nk, ttl_any, 2u32..9).prop_map(|(k, ttl, tag)| Op::Insert { k, cost: 1, ttl, tag }),
+                1 => Just(Op::ProcInsert),
+            ];
+            (
+                Just(cfg),
+                proptest::collection::vec(ops.clone(), 0..8),
+                2u64..=nk.min(4).max(2),
+                ttl,
+                site,
+                0usize..4,
+                proptest::collection::vec(action, 1..=2),
+                proptest::sample::select(vec![NS, NS + 1, 2 * NS, 3 * NS]),
+                proptest::collection::vec(ops, 0..8),
+            )
+                .prop_map(move |(cfg, prefix, m, ttl, site, nth, actions, extra, suffix)| {
+                    let m = m.min(cfg.keys.len() as u64);
+                    let mut v = prefix;
+                    for k in 0..m {
+                        v.push(Op::Insert { k, cost: 1, ttl, tag: 1 });
+                    }
+                    v.push(Op::Drain { clear_first: false });
+                    v.push(Op::Advance(Adv::Ns(ttl + extra)));
+                    v.push(Op::Interpose { at: site.to_string(), nth, actions, then: Box::new(Op::Tick) });
+                    v.push(Op::Drain { clear_first: false });
+                    for k in 0..m {
+                        v.push(Op::Get { k });
+                    }
+                    v.extend(suffix);
+                    Case { cfg, ops: v }
+                })
         })
         .boxed()
 }
